@@ -52,17 +52,22 @@ class World:
             self.ossified_src = int(m.group(1))
 
     # ------------------------------------------------------------------ helpers
-    def make_leftover(self, kind, age):
-        """an abandoned entry as a crashed qmail-queue leaves it; returns n"""
+    def make_leftover(self, kind, age, dir0=False):
+        """an abandoned entry as a crashed qmail-queue leaves it; returns n. dir0: pick a number that lands in mess/0, the first
+        directory the daemon's garbage-collection sweep visits"""
         q = self.h.queue
-        p = os.path.join(q, "pid", "left.%d" % len(os.listdir(os.path.join(q, "pid"))))
-        open(p, "wb").write(b"Received: (qmail 1 invoked by uid 1); 1 Jan 2020 00:00:00 -0000\nleft\n")
-        n = os.stat(p).st_ino
+        for attempt in range(4 * self.h.split):
+            p = os.path.join(q, "pid", "left.%d.%d" % (len(os.listdir(os.path.join(q, "pid"))), attempt))
+            open(p, "wb").write(b"Received: (qmail 1 invoked by uid 1); 1 Jan 2020 00:00:00 -0000\nleft\n")
+            n = os.stat(p).st_ino
+            if not dir0 or n % self.h.split == 0:
+                break
+            os.unlink(p)
         os.link(p, self.h.qpath("mess", n))
         os.unlink(p)
         if kind in ("S3", "S4"):
             open(self.h.qpath("intd", n), "wb").write(b"u1\0p1\0Fs@rem.example\0Tu@loc.example\0\0")
-        if kind == "S4":
+        if kind == "S4" and not dir0:
             os.link(self.h.qpath("intd", n), self.h.qpath("todo", n))
         t = time.time() - age
         for d in ("mess", "intd"):
@@ -210,9 +215,16 @@ class World:
         try:
             now = time.time()
             left = {}
+            late = []
             for lo in sc.get("leftovers", []):
-                n = self.make_leftover(lo["kind"], lo["age"])
+                n = self.make_leftover(lo["kind"], lo["age"], lo.get("dir0", False))
                 left[n] = lo
+                if lo["kind"] == "S4" and lo.get("dir0"):
+                    late.append(n)
+            # the todo entries of the mess/0 backlog are linked in the opposite order of their message files, so the directory order
+            # of todo/ and of mess/0 differ and the garbage-collection sweep can reach a message before the todo scan does
+            for n in reversed(late):
+                os.link(self.h.qpath("intd", n), self.h.qpath("todo", n))
             crash = sc.get("crash")
             d = self.start_daemons(senv, crash="%s:%d" % (crash["key"], crash["k"]) if crash else None)
             self.wait_proc(sched, "send.qmail-send")
@@ -505,11 +517,21 @@ def worker_dfs(job):
     return stats
 
 
+# executed in every run: a backlog of queued-but-not-preprocessed messages older than 36 hours whose numbers land in mess/0, so the
+# garbage-collection sweep reaches them before the todo scan does (daemon restarted after a long outage)
+FIXED = [
+    {"messages": [{"sender": "s@rem.example", "rcpts": ["u@loc.example"], "body": "x\n"}], "script": "K", "tape": [],
+     "leftovers": [{"kind": "S4", "age": OSSIFIED + 3600, "dir0": True} for _ in range(6)]},
+    {"messages": [], "script": "K", "tape": [],
+     "leftovers": [{"kind": "S4", "age": OSSIFIED + 3600, "dir0": True} for _ in range(4)] + [{"kind": "S3", "age": OSSIFIED + 3600, "dir0": True}, {"kind": "S2", "age": OSSIFIED - 3600, "dir0": True}]},
+]
+
+
 def run(ctx):
     sandbox.ensure_shim()
     tree = vlib.Tree().make("qmail-queue", "qmail-send", "qmail-clean")
     nw = vlib.NCPU
-    fixed = []
+    fixed = list(FIXED)
     d = os.path.join(vlib.VERIF, "corpus", "C02", "regress")
     if os.path.isdir(d):
         for f in sorted(os.listdir(d)):
